@@ -116,6 +116,35 @@ def classify_c05(src, opts, diffs, pm):
     return None, culprits
 
 
+def interface_multiset_diff(pn, qn):
+    """keyword-argument names at call sites, attribute names, imported module / member names with their relative level: multisets over the
+    normalised input and the normalised output (statements an enabled option may drop are gone from both)"""
+    def bag(tree):
+        kw, attr, imp = {}, {}, {}
+        for n in ast.walk(tree):
+            if isinstance(n, (ast.Call, ast.ClassDef)):
+                for k in n.keywords:
+                    if k.arg is not None:
+                        kw[k.arg] = kw.get(k.arg, 0) + 1
+            elif isinstance(n, ast.Attribute):
+                attr[n.attr] = attr.get(n.attr, 0) + 1
+            elif isinstance(n, ast.Import):
+                for a in n.names:
+                    key = 'import %s' % a.name
+                    imp[key] = imp.get(key, 0) + 1
+            elif isinstance(n, ast.ImportFrom):
+                for a in n.names:
+                    key = 'from %s%s import %s' % ('.' * (n.level or 0), n.module or '', a.name)
+                    imp[key] = imp.get(key, 0) + 1
+        return kw, attr, imp
+    out = []
+    for label, a, b in zip(('keyword-argument name', 'attribute name', 'import'), bag(pn), bag(qn)):
+        for k in sorted(set(a) | set(b)):
+            if a.get(k, 0) != b.get(k, 0):
+                out.append('%s %r occurs %d times in the input and %d times in the output' % (label, k, a.get(k, 0), b.get(k, 0)))
+    return out
+
+
 def run_case(case):
     import python_minifier as pm
     prop = case['prop']
@@ -201,6 +230,17 @@ def run_case(case):
         for v in res['violations']:
             v['witness']['out'] = out[:1500]
         return res
+    elif prop == 'C04' and r.diffs:
+        # the pairing is gone, but names that can never legitimately change or vanish are still comparable as multisets of the normalised trees
+        lost = interface_multiset_diff(r.ptree_n, r.qtree_n)
+        if lost:
+            for msg in lost[:3]:
+                viol(None, 'interface (multiset, structure differs): ' + msg)
+            res['status'] = 'violation'
+            for v in res['violations']:
+                v['witness']['out'] = out[:1500]
+            return res
+        return {'status': 'inconclusive', 'reason': 'structure-differs (decided by C05)'}
     elif r.diffs:
         return {'status': 'inconclusive', 'reason': 'structure-differs (decided by C05)'}
     if prop == 'C03':
